@@ -46,6 +46,16 @@ def check(ctx, ws, msb):
     # otherwise it keeps its value
     from ..fsm import lit_atoms, assignments, holds
     cs_atoms = [(a, p) for a, p in done_guard if 'spi.cs' in a]
+    if not cs_atoms:
+        # the gate may be a registered copy of chip select: it then lags the pin by a cycle while the clock-edge detectors
+        # do not, so an edge in the cycle chip select becomes active is judged against the old select state
+        late = [a for a, p in done_guard if a in ir.signals and ir.drivers(a, exact=True) and
+                all(d.domain != 'comb' and isinstance(d.rhs, E) and d.rhs.sigs() <= {'self.spi.cs'} for d in ir.drivers(a, exact=True))]
+        if late:
+            ctx.ob('C50.select-alignment', 'SPIDeviceInterface.chip-select-gate[%s]' % tag, False, ir.drivers(late[0], exact=True)[0].loc,
+                   'the gate %s of the bit counting is a registered copy of chip select: clock edges are detected in the cycle '
+                   'the new level appears, the gate one cycle later, so the first edge of a transaction that starts with chip '
+                   'select is lost (every word framed one bit late)' % late)
     ctx.need(len(cs_atoms) == 1, 'chip select atom in the completion guard')
     cs_atom, cs_pol = cs_atoms[0]
     sample_guard = done_guard - {(cmp_e.canon(), True)}
